@@ -1656,6 +1656,24 @@ def b_sorted(ex, st, args, kwargs, node):
     v = st.get(args[0])
     if isinstance(v, (ListV, tuple)) and all(is_conc(x) for x in (v.items if isinstance(v, ListV) else v)):
         return st.alloc(ListV(sorted(v.items if isinstance(v, ListV) else v)))
+    if isinstance(v, Vec) and len(args) == 1 and not kwargs:
+        probe = v.at(z3.IntVal(0))
+        if is_z3(to_z3(probe)) and not isinstance(probe, NF) and to_z3(probe).sort() in (I, R):
+            # sorted(numbers): the same numbers in non-decreasing order; of an already ordered sequence, the sequence itself
+            used(ex, "sorted(numbers) = a non-decreasing rearrangement (every element kept); an ordered sequence is returned as it is")
+            n = to_z3(v.n)
+            Rf = z3.Function(fresh_name("sorted"), I, to_z3(probe).sort())
+            src, dst = z3.Function(fresh_name("sorted_from"), I, I), z3.Function(fresh_name("sorted_to"), I, I)
+            a, b, k = fresh(I, "a"), fresh(I, "b"), fresh(I, "k")
+            with binding(a, k):
+                va1, vk, vsrc, vdst = to_z3(v.at(a + 1)), to_z3(v.at(k)), to_z3(v.at(src(k))), to_z3(v.at(a))
+            inr = z3.And(0 <= k, k < n)
+            st.assume(z3.ForAll([a, b], z3.Implies(z3.And(0 <= a, a <= b, b < n), Rf(a) <= Rf(b))))
+            st.assume(z3.ForAll([k], z3.Implies(inr, z3.And(0 <= src(k), src(k) < n, Rf(k) == vsrc)), patterns=[Rf(k)]))
+            st.assume(z3.ForAll([k], z3.Implies(inr, z3.And(0 <= dst(k), dst(k) < n, Rf(dst(k)) == vk)), patterns=[dst(k)]))
+            ordered = z3.ForAll([a], z3.Implies(z3.And(0 <= a, a + 1 < n), vdst <= va1))
+            st.assume(z3.Implies(ordered, z3.ForAll([k], z3.Implies(inr, Rf(k) == vk))))
+            return st.alloc(Vec(v.n, lambda j: Rf(to_z3(j)), elt=v.elt, kind="list"))
     raise Unsupported("sorted of symbolic sequence")
 
 
